@@ -153,6 +153,18 @@ Theorem force_starts_in_the_store_at_force_time : forall c s,
 Proof. exact RefSemLazyProofs.started_same. Qed.
 Print Assumptions force_starts_in_the_store_at_force_time.
 
+(* a lazy argument that is a plain variable: forcing it is the LEXICAL look-up along the static
+   chain captured at the call, never a look-up along the chain of callers *)
+Theorem force_variable_is_lexical_lookup : forall n c s x env,
+  nth_error (thunks s) c = Some (mkThunk (TSrc (EVar x) env) None) ->
+  apply (S (S n)) (VPrim PForce) [VThunk c] s =
+  match lookup_chain (frames (core s)) env x with
+  | Some (_, v) => (Done v, finished c v (started c s))
+  | None => (Sig (SErr EUnbound), started c s)
+  end.
+Proof. exact RefSemLazyProofs.force_variable_is_lexical_lookup. Qed.
+Print Assumptions force_variable_is_lexical_lookup.
+
 Theorem force_uncompilable : forall n c s e env,
   nth_error (thunks s) c = Some (mkThunk (TSrc e env) None) -> cc [] e = false ->
   apply (S n) (VPrim PForce) [VThunk c] s = (Sig (SErr ELoop), touch c s).
